@@ -118,10 +118,11 @@ void harness(void)
 #endif
 
 #ifdef U_TYPE
+/* type() answers with the name string of the object's class (SPIF_OBJ_CLASSNAME = cls->classname) */
 spif_classname_t spif_mbuff_type(spif_mbuff_t self)
-__CPROVER_requires(MBUFF_INV(self))
+__CPROVER_requires(MBUFF_INV(self) && __CPROVER_is_fresh(self->parent.cls, sizeof(SPIF_CONST_TYPE(class))))
 __CPROVER_assigns()
-__CPROVER_ensures(RV == (spif_classname_t) self->parent.cls)
+__CPROVER_ensures(RV == SPIF_OBJ_CLASS(self)->classname)
 ;
 void harness(void)
 {
@@ -140,10 +141,10 @@ void harness(void)
     spif_mbuff_t m = spif_mbuff_new();
     spif_classname_t t = spif_mbuff_type(m);
     unsigned i = nondet_uint();
-    __CPROVER_assert(t == (spif_classname_t) spif_mbuff_class && t == (spif_classname_t) spif_mbuff_mbuffclass,
-                     "type(): the answer identifies the mbuff class");
+    __CPROVER_assert(t == spif_mbuff_class->classname && t == SPIF_CLASS(spif_mbuff_mbuffclass)->classname,
+                     "type(): the answer is the name of the mbuff class");
     __CPROVER_assume(i < sizeof(want));
-    __CPROVER_assert(((spif_class_t) t)->classname[i] == want[i], "type(): the class is named !spif_mbuff_t!");
+    __CPROVER_assert(t[i] == want[i], "type(): the class is named !spif_mbuff_t!");
     __CPROVER_assert(SPIF_OBJ_IS_MBUFF(m), "type(): SPIF_OBJ_IS_MBUFF holds for a constructed object");
     spif_mbuff_del(m);
     VERIF_CANARY();
